@@ -23,8 +23,7 @@ META = {
             "(luaSendAmount reaches SendBalance with a negative amount, version 4) is recomputed from the translated source each "
             "run: known keys C20:F13:*.  Tie, every run (no VM can be built here): gen_vmguard translates all 255 Go functions "
             "of package contract, lib/g6_cscan the Lua-registered C functions; obligations closed by vm_compute: check, "
-            "counter_ok, recpoints_ok, reviewed C inventory, classified callees, reviewed uses of the context flags (isQuery never assigned, "
-            "contexts never copied) and of the context table; gen_vmguard_slots extracts the real allocContextSlot / "
+            "counter_ok, recpoints_ok, reviewed C inventory / callees / context-flag uses / context-table uses; gen_vmguard_slots extracts the real allocContextSlot / "
             "freeContextSlot text, runs it natively on ~64 000 histories with direct predicates and compares with the model.",
     "note": "Trusted: Coq kernel + vm_compute (no axioms); the translators gen_vmguard (go/parser, no types: calls resolved by name "
             "and arity to every candidate), lib/g6_cscan (structural C parse, textual guard recognition) and gen_vmguard_slots; "
